@@ -93,6 +93,8 @@ class Mon:
         translates anything, interpret the expression differently from standard semantics on some prefix of w?"""
         import signal
         cache = self.__dict__.setdefault('_gd_cache', {})
+        if getattr(self, 'cur_depth', 0) >= 2:
+            w = w[:6]           # `re` on nested repetitions: see crosscheck
         if (text, w) in cache:
             return cache[(text, w)]
         old_handler = signal.signal(signal.SIGALRM, _alarm)
@@ -202,13 +204,18 @@ class Mon:
         else:
             ctx.count(kind + ':input-exhausted-not-accepting')
 
-    def crosscheck(self, text, dfa, w, member):
-        """the oracle's membership for every prefix vs Python's re"""
+    def crosscheck(self, text, dfa, w, member, depth=0):
+        """the oracle's membership for every prefix vs Python's re.  `re` backtracks, cannot be interrupted, and takes exponential time
+        on nested repetitions: for those only the prefixes of up to 5 symbols are cross-checked (two thorough-tier shards once sat
+        in re.fullmatch until the watchdog fired) -- the cross-check guards the oracle, it is not the verdict."""
         ctx = self.ctx
         cre = self.re_cache.get(text)
         if cre is None:
             cre = self.re_cache[text] = re.compile(text, re.DOTALL)
         for i, m in enumerate(member):
+            if depth >= 2 and i > 5:
+                ctx.count('oracle:re-crosscheck-skipped-nested-repetition')
+                break
             ctx.count('oracle:re-crosschecks')
             if (cre.fullmatch(w[:i]) is not None) != m:
                 ctx.inconclusive_because('oracle disagrees with re.fullmatch on %r / %r' % (text, w[:i]))
@@ -226,6 +233,7 @@ class Mon:
     def expression(self, ast, inputs, chunk_level):
         cpppo, rx, ctx = self.cpppo, self.rx, self.ctx
         text = rx.to_text(ast)
+        self.cur_depth = rx.quantifier_depth(ast)
         try:
             re.compile(text)
         except re.error:
@@ -257,7 +265,7 @@ class Mon:
                 m_ng = m_ngb = None
         for w in inputs:
             P, accepted, member = dfa.analyse(w)
-            if not self.crosscheck(text, dfa, w, member):
+            if not self.crosscheck(text, dfa, w, member, depth=rx.quantifier_depth(ast)):
                 return
             for label, chunks in self.chunkings(w, chunk_level(w)):
                 self.judge('str', text, m_str, w, chunks, label, P, accepted, False)
@@ -433,6 +441,7 @@ def run(ctx):
         if rx.postfixed_twice(ast) or rx.expanded_size(ast) > 60:
             continue
         text = rx.to_text(ast)
+        mon.cur_depth = rx.quantifier_depth(ast)
         chars = sorted(rx.chars_of(ast))
         try:
             dfa = rx.DFA(ast)
